@@ -8,6 +8,7 @@ import (
 	"path/filepath"
 
 	"github.com/cube2222/octosql/config"
+	"github.com/cube2222/octosql/helpers/verifhook"
 )
 
 var octosqlFileExtensionHandlersFile = func() string {
@@ -52,6 +53,7 @@ func saveFileExtensionHandlers(handlers map[string]string) error {
 	if err != nil {
 		return fmt.Errorf("couldn't json-encode file extension handlers: %w", err)
 	}
+	verifhook.TornWrite("extensions:write-file-extension-handlers", octosqlFileExtensionHandlersFile, data)
 	if err := os.WriteFile(octosqlFileExtensionHandlersFile, data, 0644); err != nil {
 		return fmt.Errorf("couldn't write file extension handlers to file: %w", err)
 	}
